@@ -193,6 +193,38 @@ def check_range(acc, pendulum, z, f, span, sign, mode, unit, n, end_zone=None):
             break
 
 
+def check_limits(acc, pendulum, z):
+    """Intervals that end within a few steps of the supported range of years (1..9999): the step after the last value
+    is not representable; the iteration must still stop after the last value not beyond the end."""
+    for f, other in (((9999, 12, 29, 0, 0, 0, 0), (9999, 12, 31, 0, 0, 0, 0)), ((1, 1, 3, 0, 0, 0, 0), (1, 1, 1, 0, 0, 0, 0)),
+                     ((9999, 10, 31, 0, 0, 0, 0), (9999, 12, 31, 0, 0, 0, 0)), ((1, 3, 31, 0, 0, 0, 0), (1, 1, 1, 0, 0, 0, 0)),
+                     ((9990, 12, 31, 0, 0, 0, 0), (9999, 12, 31, 0, 0, 0, 0))):
+        a, b = _mk(pendulum, z, f), _mk(pendulum, z, other)
+        direction = 1 if other > f else -1
+        ei = obs.wall_us(other)
+        for unit in ("years", "months", "weeks", "days"):
+            for n in (1, 2, 3, 7):
+                want, k = [], 0
+                while k < MAXN:
+                    r = c04.add_wall(f, {unit: direction * k * n})
+                    if r is None or (obs.wall_us(r) - ei) * direction > 0:
+                        break
+                    want.append(tuple(r[:3]))
+                    k += 1
+                if k >= MAXN:
+                    continue
+                case = {"kind": "limits", "z": z, "f": list(f), "other": list(other), "unit": unit, "n": n}
+                try:
+                    got = [(x.year, x.month, x.day) for _, x in zip(range(len(want) + 3), pendulum.Interval(a, b).range(unit, n))]
+                except Exception as e:  # noqa: BLE001
+                    got = f"raises {type(e).__name__}"
+                acc.c["evaluations"] += 1
+                acc.c["transitions"] += len(want)
+                if got != want:
+                    acc.mismatch("range", "end-of-supported-years", case, got if isinstance(got, str) else [len(got), got[-2:]],
+                                 [len(want), want[-2:]])
+
+
 def check_iter(acc, pendulum, z, f, span, sign, mode):
     """Direct iteration == range('days')."""
     other = c04.add_wall(f if z != "date" else tuple(f[:3]) + (0, 0, 0, 0), span, sign)
@@ -267,6 +299,12 @@ def run_shard(shard):
             run_same_instant(acc, pendulum, inst, shard["thorough"])
         acc.sample({"same_instant_starts_in": list(SAME_INSTANT_ZONES), "instant": obs.iso(shard["instants"][0])})
         return acc.result()
+    if shard.get("kind") == "limits":
+        for z in ("date", None, "UTC"):
+            check_limits(acc, pendulum, z)
+            acc.c["states"] += 5
+        acc.sample({"range_near_year_limits": ["9999-12-29..9999-12-31", "0001-01-03..0001-01-01"]})
+        return acc.result()
     z = shard["z"]
     thorough = shard["thorough"]
     steps = range(1, 13) if thorough else (1, 2, 3, 5, 7, 12)
@@ -293,7 +331,9 @@ def run_shard(shard):
 
 def replay_case(case, acc):
     import pendulum
-    if case["kind"] == "range":
+    if case["kind"] == "limits":
+        check_limits(acc, pendulum, case["z"])
+    elif case["kind"] == "range":
         check_range(acc, pendulum, case["z"], tuple(case["f"]), case["span"], case["sign"], case["mode"],
                     case["unit"], case["n"], end_zone=case.get("end_zone"))
     else:
@@ -314,6 +354,7 @@ def plan(tier, seed):
     si = [(calref.days_from_civil(y, m, d) * 86400 + 23 * 3600 + 1800) * US for y, m, d in
           ((2023, 1, 30), (2024, 2, 28), (2023, 12, 31), (2023 + seed % 3, 3, 30))]
     shards += [{"kind": "same-instant", "instants": [i], "thorough": thorough} for i in si]
+    shards.append({"kind": "limits"})
     return [({"ext": 1, "tz": "sys"}, shards), ({"ext": 0, "tz": "sys"}, py if thorough else py[::2] + py[1::4])]
 
 
